@@ -30,7 +30,7 @@ MANIFEST = {
                  'space groups as stand-in',
 }
 UNITS = ['unit_find', 'unit_fold', 'unit_iso_lemmas']
-BOUNDED = ['bounded_shape']
+BOUNDED = ['bounded_shape', 'bounded_purity']
 META = {'clauses': {'C17.count': 'P', 'C17.reimage': 'P', 'C17.iso': 'A (SymmOp isometry) + P (lemma: |component|<=1/2 and congruent => same minimum-image class)', 'C17.fold': 'P'},
         'not_decided': ['space-group operation lists and their compatibility with the lattice (pymatgen data)', 'L-perp is assumed mathematics here (not re-proved)']}
 FN = 'gemdat.shape.ShapeAnalyzer.find_equivalent_positions'
@@ -394,3 +394,10 @@ def bounded_shape(tier, seed):
         if r['reproduced']:
             st.violation('shape', r['detail'], 'verif.props.c17:replay_shape', inp)
     return st.result()
+
+
+# generic purity stand-in (arguments unchanged, second call equal, fresh call equal) over this property's API calls
+from verif.native.purity import make_bounded as _make_purity  # noqa: E402
+from verif.props.purity_reg import REG as _PURITY_REG  # noqa: E402
+PURITY = _PURITY_REG['C17']
+bounded_purity = _make_purity('C17', PURITY)
